@@ -379,72 +379,64 @@ def sameContent [DecidableEq O] (a b : NT O) : Bool :=
 def lastPiece {α : Type} (P : List Nat) (pieces : List α) (j : Nat) : Option α :=
   (P.zip pieces).foldl (fun acc pp => if pp.1 = j then some pp.2 else acc) none
 
-/-- replace the members at the selected positions by the pieces, in order (a position selected twice keeps the last piece) -/
-def replaceMembers {α : Type} (ms : List α) (P : List Nat) (pieces : List α) : List α :=
-  (P.zip pieces).foldl (fun acc pp => acc.set pp.1 pp.2) ms
-
 mutual
-/-- mirrors `dest_val[idx] = value` on the promoted entry (_lazy.py:__setitem__ → `_split_index`; the item at the stack
-dim selects the members, `value` is passed whole (integer) or unbound along `stack_dim - #ints + #None` and zipped
-with the selected members; a scalar `NonTensorData` member takes the payload: NonTensorData._update(inplace=True)).
-`nw` = number of consuming items the user wrote (the trailing full slices `resolve` adds are not written: an index
-list at the stack dim with nothing else written makes the code REPLACE the selected members by the value pieces,
-`self.tensordicts[i] = value[k]`, instead of writing into them). -/
-def assign : NT O → List RIx → Nat → NT O → Except IErr (NT O)
-  | .shared _ s, rix, _, v =>
+/-- mirrors `dest_val[idx] = value` on the promoted entry (_lazy.py:__setitem__ → `_split_index`): the item at the stack
+dim selects the members; `value` is passed whole (integer) or unbound along `stack_dim - #ints + #None` and zipped
+with the selected members (slice: `_zip_strict`; index list: `assign(converted_idx)`, which since the repair on main
+writes INTO the selected member — `update(value[i], inplace=True)` — like the other branches, instead of replacing
+it by a view of the value); a scalar `NonTensorData` member takes the payload (NonTensorData._update(inplace=True)). -/
+def assign : NT O → List RIx → NT O → Except IErr (NT O)
+  | .shared _ s, rix, v =>
     match s, rix, v with
     | [], [], .shared o' _ => .ok (.shared o' [])
     | _, _, _ => .error .shape       -- "Cannot update a NonTensorData object with a NonTensorStack" / partial write of a shared value
-  | .stack ms d, rix, nw, v =>
+  | .stack ms d, rix, v =>
     match splitAt rix d with
     | none => .error .shape
     | some (before, item, after) =>
-      -- written items left for the members: the item at the stack dim is written iff fewer than `nw` items precede it
-      let nw' := if (before.filter RIx.consumes).length < nw then nw - 1 else nw
       match item with
-      | .fixed i => (assignNth ms i (before ++ after) (nw - 1) v).map (fun ms' => .stack ms' d)
+      | .fixed i => (assignNth ms i (before ++ after) v).map (fun ms' => .stack ms' d)
       | item =>
         match selectPositions ms.length item with
         | none => .error .index
         | some P =>
           let pieces := unbind v (outShape before).length
           if pieces.length ≠ P.length then .error .shape
-          else
-            match item, before, nw with
-            | .pick _, [], 1 => .ok (.stack (replaceMembers ms P pieces) d)     -- `idx == ()`: members are replaced
-            | _, _, _ => (assignMembers ms 0 P pieces (before ++ after) nw').map (fun ms' => .stack ms' d)
-def assignNth : List (NT O) → Nat → List RIx → Nat → NT O → Except IErr (List (NT O))
-  | [], _, _, _, _ => .error .index
-  | m :: r, 0, rix, nw, v => (assign m rix nw v).map (· :: r)
-  | m :: r, i + 1, rix, nw, v => (assignNth r i rix nw v).map (m :: ·)
-def assignMembers : List (NT O) → Nat → List Nat → List (NT O) → List RIx → Nat → Except IErr (List (NT O))
-  | [], _, _, _, _, _ => .ok []
-  | m :: r, j, P, pieces, rix, nw =>
+          else (assignMembers ms 0 P pieces (before ++ after)).map (fun ms' => .stack ms' d)
+def assignNth : List (NT O) → Nat → List RIx → NT O → Except IErr (List (NT O))
+  | [], _, _, _ => .error .index
+  | m :: r, 0, rix, v => (assign m rix v).map (· :: r)
+  | m :: r, i + 1, rix, v => (assignNth r i rix v).map (m :: ·)
+def assignMembers : List (NT O) → Nat → List Nat → List (NT O) → List RIx → Except IErr (List (NT O))
+  | [], _, _, _, _ => .ok []
+  | m :: r, j, P, pieces, rix =>
     match lastPiece P pieces j with
-    | none => (assignMembers r (j + 1) P pieces rix nw).map (m :: ·)
+    | none => (assignMembers r (j + 1) P pieces rix).map (m :: ·)
     | some piece =>
-      match assign m rix nw piece with
+      match assign m rix piece with
       | .error e => .error e
-      | .ok m' => (assignMembers r (j + 1) P pieces rix nw).map (m' :: ·)
+      | .ok m' => (assignMembers r (j + 1) P pieces rix).map (m' :: ·)
 end
 
 /-- mirrors _td.py:_set_at_str, non-tensor branch: nothing happens when the indexed part already holds the value
 (`dest[idx].tolist() == value.tolist()`); otherwise the entry is promoted (`maybe_to_stack`) and written -/
-def setAt [DecidableEq O] (r : NT O) (rix : List RIx) (nw : Nat) (v : NT O) : Except IErr (NT O) :=
+def setAt [DecidableEq O] (r : NT O) (rix : List RIx) (v : NT O) : Except IErr (NT O) :=
   match index r rix with
   | .error e => .error e
   | .ok cur =>
     if sameContent cur v then .ok r
-    else assign (maybeToStack r) rix nw v
+    else assign (maybeToStack r) rix v
 
 /-- `td[ix] = value` for the entry, index as written -/
 def setitem [DecidableEq O] (r : NT O) (ix : List Ix) (v : NT O) : Except IErr (NT O) :=
+  -- `td[()] = value`, and `td[...] = value` on an empty batch (`convert_ellipsis_to_idx` gives `()`): the index selects
+  -- the whole entry, which is REPLACED by the value when the contents differ (_td.py:_set_at_str, `idx == ()` branch)
+  if ix.all (· == .ell) && (ix.isEmpty || (shape r).length == 0) then
+    .ok (if sameContent r v then r else v)
+  else
   match resolve (shape r) ix with
   | .error e => .error e
-  | .ok rix =>
-    -- consuming items actually written: all of them when the index contains `...` (it is expanded into explicit slices)
-    let nw := if ix.any (· == .ell) then (shape r).length else (ix.filter Ix.consumes).length
-    setAt r rix nw v
+  | .ok rix => setAt r rix v
 
 end NT
 end TdVerif.C16
